@@ -524,36 +524,50 @@ def running_rule(run, f, rid_inc, rid_dec, rid_rmw):
                 run.fail(rid_rmw, "%s/running" % fn, b.loc(t["line"]), "running is changed with a plain store (lost update against a concurrent fetch_add/fetch_update)")
             else:
                 run.ok(rid_rmw, "%s/running/%s" % (fn, m), m)
-    # increment
-    b = need(run, rid_inc, f, POOL + "::submit_co")
+    # increment: on the inlined unit (the `.map(|_| ..)` closure, a `?` + statement, or a helper are the same thing)
+    b = unit(run, rid_inc, f, POOL + "::submit_co")
     if b is not None:
+        from analysis.table import result_outcomes
         cfg = Cfg(b)
         du = DefUse(b)
         sc = find_calls(b, callee_is(SCHED + "::submit_co"))
-        mp = find_calls(b, callee_is("std::result::Result::map", "std::result::Result::inspect"))
-        incs = [(fn, ws) for fn, ws in writers.items() if fn.startswith(POOL + "::submit_co")]
+        incs = []
+        for bid, t in b.calls():
+            c = norm(t.get("callee") or "")
+            if c.startswith("std::sync::atomic::Atomic::") and c.rsplit("::", 1)[1] not in ("load", "new") and receiver_key(b, du, t["args"][0]) == key:
+                incs.append((bid, t, c.rsplit("::", 1)[1]))
         why = []
         if len(sc) != 1:
             why.append("expected one Scheduler::submit_co call")
+        elif not incs:
+            why.append("running is not incremented exactly once under Ok of Scheduler::submit_co")
         else:
             grs = [x for (x, t) in find_calls(b, callee_is(POOL + "::get_running_size"))]
             gms = [x for (x, t) in find_calls(b, callee_is(POOL + "::get_max_size"))]
             if not grs or not gms or not all(cfg.dominates(x, sc[0][0]) for x in (grs[0], gms[0])):
                 why.append("the coroutine is created without first comparing running with max")
-            inc_in_closure = [fn for fn, ws in incs if "{closure#" in fn and all(m == "fetch_add" and op_const(t["args"][1]) == 1 for (_b, t, m) in ws) and len(ws) == 1]
-            inc_inline = [fn for fn, ws in incs if "{closure#" not in fn]
-            if len(inc_in_closure) == 1 and not inc_inline and mp and any(x == sc[0][0] for (x, _t) in backward(b, mp[0][1]["args"][0], du, at=(mp[0][0], "term")).calls):
-                pass
-            elif inc_inline:
-                # inline form: the fetch_add must sit on the Ok arm of the creation result
-                fnws = writers.get(POOL + "::submit_co", [])
-                va = variant_arms(b, cfg, du, sc[0][1]["dest"]["l"], cfg.after(sc[0][0]))
-                if not va or not all(va[0].get("Ok") is not None and cfg.dominates(va[0]["Ok"], x) and m == "fetch_add" for (x, t, m) in fnws):
+            if not all(m == "fetch_add" and op_const(t["args"][1]) == 1 for (_x, t, m) in incs):
+                why.append("running is not incremented by fetch_add(1)")
+            w = PathWalker(b)
+            inc_blocks = {x for (x, _t, _m) in incs}
+            for (pth, _c, sv) in w.walk(0, lambda bid, t: ("return",) if t["k"] == "return" else None):
+                if sv[0] != "return":
+                    continue
+                oc, feasible = result_outcomes(b, du, pth)
+                if not feasible:
+                    continue
+                n = len([x for x in pth if x in inc_blocks])
+                created = sc[0][0] in pth and oc.get(sc[0][0]) == "ok"
+                if sc[0][0] in pth and oc.get(sc[0][0]) is None:
+                    # the result is returned / mapped without this function looking at it: both outcomes reach here
+                    if n:
+                        why.append("running is incremented on a path where no worker was created (creation failed or was refused)")
+                elif created and n != 1:
+                    why.append("a created worker is counted %d times" % n)
+                elif not created and n:
                     why.append("running is incremented on a path where no worker was created (creation failed or was refused)")
-            else:
-                why.append("running is not incremented exactly once under Ok of Scheduler::submit_co")
         if why:
-            run.fail(rid_inc, "submit_co/increment", b.loc(), "; ".join(why))
+            run.fail(rid_inc, "submit_co/increment", b.loc(), "; ".join(sorted(set(why))))
         else:
             run.ok(rid_inc, "submit_co/increment", "running.fetch_add(1) only under Ok(created), after running >= max refusal")
     # decrement table
